@@ -7,3 +7,4 @@ pub mod gen;
 pub mod oracle;
 pub mod props;
 pub mod ser;
+pub mod worker;
